@@ -148,6 +148,22 @@ def tight_families(draw):
     return case
 
 
+@st.composite
+def repeated_values_cases(draw):
+    """4-10 items drawn from a few small values (whole rounds of equal items, ties between bins at every step): cheap, so many cases."""
+    alg = draw(st.sampled_from(["greedy", "greedy", "greedy", "kk", "kk", "kk", "multifit", "roundrobin"]))
+    k = draw(st.sampled_from([2, 2, 3, 3, 4]))
+    n = draw(st.integers(4, 10 if k <= 3 else 9))
+    seed = draw(st.integers(0, 2 ** 48))
+    pool = S.splitmix(seed, 2 + seed % 4, 0, 14)
+    values = [pool[i % len(pool)] for i in S.splitmix(seed + 1, n, 0, 59)]
+    case = {"alg": alg, "values": values, "numbins": k, "pres": draw(st.sampled_from(["list", "list", "dict-str", "array"])),
+            "nseed": draw(st.integers(0, 5)), "profile": "repeated-small-values"}
+    if alg == "multifit":
+        case["opts"] = {"iterations": draw(st.sampled_from([1, 2, 3, 5, 10]))}
+    return case
+
+
 def valid(case):
     v, k = case.get("values"), case.get("numbins")
     if case.get("alg") not in ALGS or not isinstance(k, int) or k < 1:
@@ -181,6 +197,9 @@ def legs(tier):
             "(1.22+2^-iterations)OPT, max-min <= largest item, round-robin order and cardinalities; non-trivial = the heuristic "
             "is not optimal on the case (round-robin: more items than bins and >= 2 distinct values)",
             strategy=small_cases(), n_quick=4000, n_thorough=80000, valid=valid, shrink=shrink, floor=0.1, target=True),
+        Leg("repeated-small-values", evaluate,
+            "hypothesis: 4-10 items drawn from 2-5 small values (0..10), 2-4 bins, optimum from the exhaustive oracle; same bounds and rule",
+            strategy=repeated_values_cases(), n_quick=20000, n_thorough=200000, valid=valid, shrink=shrink, floor=0.05),
         Leg("planted-large", evaluate,
             "hypothesis: 2-10 bins of equal sum S cut into 1-30 random parts (up to ~300 items, shuffled / ascending / as built): "
             "optimum = S by construction; same bounds and rule",
